@@ -11,17 +11,17 @@ Proved in full:
   Proof/JqEqv.lean) and `unique_exact`;
 * `getpath_defined`, `setpath_getpath_id`, `getpath_setpath`, `setpath_frame` for every `p ∈ paths v`
   (Proof/JqPaths.lean), and the one-step object versions;
-* `to_from_entries` for duplicate-free objects;
+* `to_from_entries` for duplicate-free objects; `tostream_fromstream` (Proof/JqStream.lean);
 * `base64_round_trip`, `uri_round_trip` for all byte strings (Proof/JqCodec.lean).
 Not proved here (evaluated by the C25 correspondence on generated values instead):
-`tojson_fromjson` (printer/reader round trip over the carrier's print/parse law),
-`tostream_fromstream`.
+`tojson_fromjson` (printer/reader round trip over the carrier's print/parse law).
 -/
 import SuccinctlyVerif.Model.Jq
 import SuccinctlyVerif.Proof.JqOrder
 import SuccinctlyVerif.Proof.JqCodec
 import SuccinctlyVerif.Proof.JqPaths
 import SuccinctlyVerif.Proof.JqEqv
+import SuccinctlyVerif.Proof.JqStream
 namespace SV.Props.C25
 open SV.Jq
 variable {N : Type} [NumOps N]
@@ -417,6 +417,17 @@ theorem setpath_frame (v : JV N) (hw : v.WF) (p q : List (JV N)) (hp : p ∈ v.p
   SV.Jq.setpath_frame (paths_valid v hw p hp) (paths_valid v hw q hq) hinc x
 
 end pathlaws
+
+/-! ### streams -/
+section streams
+variable [LawfulNum N]
+
+/-- **`tostream_fromstream`**: `fromstream(tostream)` reproduces every duplicate-free value (one output,
+the value itself). -/
+theorem tostream_fromstream (v : JV N) (hw : v.WF) : JV.fromstream (JV.tostream v) = .ok [v] :=
+  SV.Jq.tostream_fromstream v hw
+
+end streams
 
 /-! ### encoders / decoders -/
 
